@@ -30,7 +30,7 @@ CLAIMS = {
         "text": "Alias clause decided exactly for all argument combinations: each io.py function declared an alias (via "
                 "format_alias_doc) has the target's signature and forwards every parameter under its own name in a single call "
                 "on every path. Restriction clause decided structurally: liveness and by-name use of columns/keys/dtypes/types in "
-                "all readers and order provenance at positional labelling sites. Not decided: cast-after-read == cast-while-read. Added later: membership filters on the restriction parameter keep the elements IN it; each (name, type) pair of a type map reaches a conversion; parsed Python lists are cast through the converting constructor; liveness counts only effective uses (a self-reassignment is not a use). Round 7: no argument of a foreign parsing call depends on the dtype map; field order inside rows is tracked through itemgetter(*indices). Round 8: `if columns:` tests the restriction argument as given. Round 9: language-trap lints (one-shot iterators consumed twice, closures over loop variables, mutable defaults, fromkeys with a mutable value, starred itemgetter results used as sequences) over the property's anchor files. Round 10: names.index(x) in a reader (first of a duplicated header name). Round 11: a raise that depends on the restriction parameter validates against the complete column set (RESTR-raise); the itemgetter lint as in C12. Round 12: where the parsed columns are renamed (header=False), the restriction is applied to the renamed table, not handed to the parser (RESTR-names, D37).",
+                "all readers and order provenance at positional labelling sites. Not decided: cast-after-read == cast-while-read. Added later: membership filters on the restriction parameter keep the elements IN it; each (name, type) pair of a type map reaches a conversion; parsed Python lists are cast through the converting constructor; liveness counts only effective uses (a self-reassignment is not a use). Round 7: no argument of a foreign parsing call depends on the dtype map; field order inside rows is tracked through itemgetter(*indices). Round 8: `if columns:` tests the restriction argument as given. Round 9: language-trap lints (one-shot iterators consumed twice, closures over loop variables, mutable defaults, fromkeys with a mutable value, starred itemgetter results used as sequences) over the property's anchor files. Round 10: names.index(x) in a reader (first of a duplicated header name). Round 11: a raise that depends on the restriction parameter validates against the complete column set (RESTR-raise); the itemgetter lint as in C12. Round 12: where the parsed columns are renamed (header=False), the restriction is applied to the renamed table, not handed to the parser (RESTR-names, D37). Round 13: a type map or restriction rebuilt by a comprehension keeps its names unchanged.",
         "note": TRUST,
         "technique": "signature comparison + keyword-forwarding analysis + order-provenance dataflow over reaching definitions",
     },
@@ -47,7 +47,7 @@ CLAIMS = {
         "text": "Necessary conditions of Vector.sort/rank/unique for all inputs: stable sort kinds, missing-last assembly with the "
                 "mask computed from the final vector on every exit, every rank branch fills both partitions and unknown methods "
                 "raise, first-occurrence indices sorted, and totality on empty / entirely missing vectors (reductions guarded, "
-                "fixed-width cast width >= 1 by interval analysis). Not decided: that the ranks are the right numbers. Added later: the rank of missing values is built on the number of non-missing elements (or the total length); every result of sort depends on dir. Round 9: language-trap lints (one-shot iterators consumed twice, closures over loop variables, mutable defaults, fromkeys with a mutable value, starred itemgetter results used as sequences) over the property's anchor files. De-duplication by hashing (NaN != NaN) in Vector.unique. Round 10: rank returns an empty result only for an empty vector. Round 11: the array-API spellings np.unique_all & co. (equal_nan=False) and equal_nan=False are reported; Vector.rank orders the values themselves.",
+                "fixed-width cast width >= 1 by interval analysis). Not decided: that the ranks are the right numbers. Added later: the rank of missing values is built on the number of non-missing elements (or the total length); every result of sort depends on dir. Round 9: language-trap lints (one-shot iterators consumed twice, closures over loop variables, mutable defaults, fromkeys with a mutable value, starred itemgetter results used as sequences) over the property's anchor files. De-duplication by hashing (NaN != NaN) in Vector.unique. Round 10: rank returns an empty result only for an empty vector. Round 11: the array-API spellings np.unique_all & co. (equal_nan=False) and equal_nan=False are reported; Vector.rank orders the values themselves. Round 13: no limit option of a renderer passes through int() (inf is a legitimate limit).",
         "note": TRUST,
         "technique": "CFG must-facts + tiny interval domain for guards; def-use rules for stability and NA-last structure",
     },
@@ -99,7 +99,7 @@ CLAIMS = {
                 "ordering primitive is the stable lexsort, index vectors are created on and applied to the frame they index with the "
                 "attach/sort ordering that makes split return original positions, group-aware protocol on the DataFrame side "
                 "(_group_ labels from the same indices, None -> default, helper columns removed), run scan of yield_groups, count on a "
-                "copy, order restoration in grouped modify, per-column NA masks as key components in unique. Not decided: summary values. Added later: every (name, function) pair stores a column on every path of aggregate's loop, unmarked functions are not group-aware, the per-group frames exist before an arbitrary function is applied. Round 9: language-trap lints (one-shot iterators consumed twice, closures over loop variables, mutable defaults, fromkeys with a mutable value, starred itemgetter results used as sequences) over the property's anchor files. Round 11: Vector.rank orders the values themselves, never their text; unique's keys are not bit patterns. Round 12: an explicit `by` of split survives every rebinding (ARG-asgiven). The scanner rule reads the index loop only (another algorithm is an analysis error); np.split is reached only with a non-empty array where its pieces are groups (GRD-split).",
+                "copy, order restoration in grouped modify, per-column NA masks as key components in unique. Not decided: summary values. Added later: every (name, function) pair stores a column on every path of aggregate's loop, unmarked functions are not group-aware, the per-group frames exist before an arbitrary function is applied. Round 9: language-trap lints (one-shot iterators consumed twice, closures over loop variables, mutable defaults, fromkeys with a mutable value, starred itemgetter results used as sequences) over the property's anchor files. Round 11: Vector.rank orders the values themselves, never their text; unique's keys are not bit patterns. Round 12: an explicit `by` of split survives every rebinding (ARG-asgiven). The scanner rule reads the index loop only (another algorithm is an analysis error); np.split is reached only with a non-empty array where its pieces are groups (GRD-split). Round 13: the names given to group_by are stored in the caller's order (no set / sorted on the way; unwrapping a single element only under a type test of it).",
         "note": TRUST,
         "technique": "statement-order and def-use rules (index-space discipline), must-facts for the protocol, effect analysis for count, guard engine",
     },
@@ -140,7 +140,7 @@ CLAIMS = {
                 "lists and evaluated over nine kinds with a trusted predicate table encoding NumPy's scalar hierarchy (timedelta64 is an "
                 "integer subtype); value, holding dtype and detector must match each other and the statement; the NA substitution "
                 "predicate equals the inference-ignore predicate and is unconditional; consumers use is_na only. Not decided: which "
-                "dtype NumPy infers for a mixed list; equivalence laws of equal; round trips. Added later: where the substituted missing value comes from (na_value of the known dtype, else guessed from util.unique_types over the WHOLE sequence), _np_array decides the dtype only when none was requested, equal compares only equal lengths, dates are inferred only from a non-empty type set, and/not in the decision lists. Round 7: memo tables keyed by a lossy projection of the dtype (type/num/kind/char); nan_to_num; every return of unique_types passes the None/NaN filter. Round 8: NA-blind exits of Vector methods; the None/NaN substitution is unguarded. Round 9: language-trap lints (one-shot iterators consumed twice, closures over loop variables, mutable defaults, fromkeys with a mutable value, starred itemgetter results used as sequences) over the property's anchor files. Round 10: replace_na / drop_na / is_na raise nothing themselves; masks built from lists state their dtype. Round 12: with an explicit dtype the substituted missing value is that dtype's na_value in every truthiness scenario (NA-dtype).",
+                "dtype NumPy infers for a mixed list; equivalence laws of equal; round trips. Added later: where the substituted missing value comes from (na_value of the known dtype, else guessed from util.unique_types over the WHOLE sequence), _np_array decides the dtype only when none was requested, equal compares only equal lengths, dates are inferred only from a non-empty type set, and/not in the decision lists. Round 7: memo tables keyed by a lossy projection of the dtype (type/num/kind/char); nan_to_num; every return of unique_types passes the None/NaN filter. Round 8: NA-blind exits of Vector methods; the None/NaN substitution is unguarded. Round 9: language-trap lints (one-shot iterators consumed twice, closures over loop variables, mutable defaults, fromkeys with a mutable value, starred itemgetter results used as sequences) over the property's anchor files. Round 10: replace_na / drop_na / is_na raise nothing themselves; masks built from lists state their dtype. Round 12: with an explicit dtype the substituted missing value is that dtype's na_value in every truthiness scenario (NA-dtype). Round 13: select / unselect never unwrap a single name into its characters and never re-order the requested names.",
         "note": TRUST + " Predicate/kind table in sa/props/C10.py.",
         "technique": "abstract evaluation of ordered decision lists over a finite kind lattice; predicate-equality of two comprehensions",
     },
@@ -166,7 +166,7 @@ CLAIMS = {
         "text": "Necessary conditions of ListOfDicts joins/aggregate for all inputs: first-match lookup built over reversed(other), "
                 "inner/left twins strip right-hand key names and update only the left item with a fresh dict (no write effect on the "
                 "right operand), semi/anti complementary tests on one id set, full_join's reverse join gets role-swapped by-tuples and "
-                "unused right items are found by synthetic id, aggregate groups/buckets/sort use one key extraction. Not decided: which items match. Added later: full_join skips its reverse part only when no right item is left over, renames differently named keys in the reverse part and hands on swapped by-pairs as sequences. Round 8: every exit of semi_join / anti_join follows the id set. Round 9: language-trap lints (one-shot iterators consumed twice, closures over loop variables, mutable defaults, fromkeys with a mutable value, starred itemgetter results used as sequences) over the property's anchor files. Round 10: group_by raises nothing itself. Round 11: the ListOfDicts.sort rule (ORD-sort) is part of this check, since aggregate orders its groups with it. Round 12: dict(zip(keys, items)) is read as a forward-filled, last-wins lookup.",
+                "unused right items are found by synthetic id, aggregate groups/buckets/sort use one key extraction. Not decided: which items match. Added later: full_join skips its reverse part only when no right item is left over, renames differently named keys in the reverse part and hands on swapped by-pairs as sequences. Round 8: every exit of semi_join / anti_join follows the id set. Round 9: language-trap lints (one-shot iterators consumed twice, closures over loop variables, mutable defaults, fromkeys with a mutable value, starred itemgetter results used as sequences) over the property's anchor files. Round 10: group_by raises nothing itself. Round 11: the ListOfDicts.sort rule (ORD-sort) is part of this check, since aggregate orders its groups with it. Round 12: dict(zip(keys, items)) is read as a forward-filled, last-wins lookup. Round 13: the keys given to ListOfDicts.group_by are stored in the caller's order.",
         "note": TRUST,
         "technique": "def-use rules on lookup construction, sibling comparison, effect analysis (E3) for the right operand, operand-role rule for full_join",
     },
@@ -183,7 +183,7 @@ CLAIMS = {
                 "right parameter and are complete; each regex function calls re.<own name> identically in scalar and vector branch "
                 "over the non-missing positions; each dt extractor reads the datetime member of its own name (kind from the stdlib); "
                 "the _pull_* helpers share one skeleton; np.vectorize applications are dominated by the all-missing early return; early "
-                "returns convert like the final return. Not decided: calendar arithmetic, strftime/regex semantics. Added later: from_string narrows to dates only when every time-of-day extractor (hour, minute, second, microsecond) is zero for all parsed values. Round 7: every return of a regex function's vector branch hands back the default-filled (or NA-masked) array. Round 8: every result of dt.to_string is produced by strftime. Round 9: language-trap lints (one-shot iterators consumed twice, closures over loop variables, mutable defaults, fromkeys with a mutable value, starred itemgetter results used as sequences) over the property's anchor files. Vector arguments of dt.replace are read at the row's own position. Round 10: the .dt / .re / .str properties raise nothing themselves. Round 11: the date-narrowing test of from_string looks at the parsed values, never at the format text alone; stored results lead back to x[~na] through every definition. Round 12: no component value of dt.replace is used as a truth value (ARG-given).",
+                "returns convert like the final return. Not decided: calendar arithmetic, strftime/regex semantics. Added later: from_string narrows to dates only when every time-of-day extractor (hour, minute, second, microsecond) is zero for all parsed values. Round 7: every return of a regex function's vector branch hands back the default-filled (or NA-masked) array. Round 8: every result of dt.to_string is produced by strftime. Round 9: language-trap lints (one-shot iterators consumed twice, closures over loop variables, mutable defaults, fromkeys with a mutable value, starred itemgetter results used as sequences) over the property's anchor files. Vector arguments of dt.replace are read at the row's own position. Round 10: the .dt / .re / .str properties raise nothing themselves. Round 11: the date-narrowing test of from_string looks at the parsed values, never at the format text alone; stored results lead back to x[~na] through every definition. Round 12: no component value of dt.replace is used as a truth value (ARG-given). Round 13: the arguments of a regex function other than the string reach re.<name> without rebinding.",
         "note": TRUST,
         "technique": "registry/forwarding rules, sibling skeleton comparison, guard-dominates-partial-operation, must-convert-on-every-return rule",
     },
